@@ -97,7 +97,7 @@ _mk("consts.bls-cofactors", ["bls.cofactors", "bls.hasse-G1", "bls.order-twist",
           ("Cofactor.lean", "clear_cofactor_exponent", "G1: the cofactor part has exponent | h_eff (bls.struct-G1), so r.(h_eff.P) = O")])
 
 
-_mk("consts.field-classes", ["fields.class-table"], ("C08", "C14", "C07", "C13", "C05", "C12", "C10", "C11", "C17"))
+_mk("consts.field-classes", ["fields.class-table", "fields.modulus-irreducible"], ("C08", "C14", "C07", "C13", "C05", "C12", "C10", "C11", "C17"))
 _mk("consts.primes", ["primes.certificates"], ("C07", "C08", "C14", "C13", "C17", "C18", "C19", "C06", "C10", "C11", "C05", "C12",
                                                 "C01", "C02", "C03", "C04"))
 
